@@ -603,7 +603,7 @@ Definition rng_of (args : list (result pv err)) : list (result pv err) :=
   | _ => [bad_ref]
   end.
 
-Fixpoint run_rows (which : bool) (tbl : list (result pv err)) (fuel : nat) (gs : list (list N)) : list string :=
+Fixpoint rows_outcomes (which : bool) (tbl : list (result pv err)) (fuel : nat) (gs : list (list N)) : list outcome :=
   match fuel with
   | O => []
   | S fu =>
@@ -614,25 +614,63 @@ Fixpoint run_rows (which : bool) (tbl : list (result pv err)) (fuel : nat) (gs :
       let lists := map (map get) (firstn (N.to_nat k) rest) in
       let outs := map (fun args =>
                          let args' := if N.eqb mode 1 then rng_of args else args in
-                         show_outcome ((if which then mech_p else spec_p) f (N.to_nat extra) recv args'))
+                         (if which then mech_p else spec_p) f (N.to_nat extra) recv args')
                       (cart lists) in
-      (outs ++ run_rows which tbl fu (skipn (N.to_nat k) rest))%list
+      (outs ++ rows_outcomes which tbl fu (skipn (N.to_nat k) rest))%list
     | _ => []
     end
   end.
 
-Definition run_batch (which : bool) (w : string) : string :=
+Definition batch_outcomes (which : bool) (w : string) : list outcome :=
   match split_bar w with
   | [tw; pw] =>
     let vals := parse_nss tw in
     let tbl := map prep_val (parse_vals (S (List.length vals)) vals) in
     let rows := parse_nss pw in
-    show_sep "|" (fun x => x) (run_rows which tbl (S (List.length rows)) rows)
-  | _ => "BADBATCH"
+    rows_outcomes which tbl (S (List.length rows)) rows
+  | _ => []
   end.
 
-Definition run_mech_w (w : string) : string := run_batch true w.
-Definition run_spec_w (w : string) : string := run_batch false w.
+(* full rendering (slow to print: used for the few probes that have to be shown) *)
+Definition run_mech_w (w : string) : string := show_sep "|" show_outcome (batch_outcomes true w).
+Definition run_spec_w (w : string) : string := show_sep "|" show_outcome (batch_outcomes false w).
+
+(* ---------- digests: FNV-1a (64 bit) of the canonical bytes of an outcome ---------- *)
+Definition canon (o : outcome) : list byte :=
+  match o with
+  | Ok ls => ("O"%byte :: concat (map (fun l => l ++ [x0a])%list ls))%list
+  | Error e => bs (kind_name e ++ ":" ++ err_msg e)
+  end.
+
+Definition dg_init : Z := 14695981039346656037%Z.
+Definition dg_step (h : Z) (b : byte) : Z :=
+  ((Z.lxor h (Z.of_N (Byte.to_N b))) * 1099511628211 mod 18446744073709551616)%Z.
+Definition dg (h : Z) (l : list byte) : Z := fold_left dg_step l h.
+Definition dg_outcome (o : outcome) : Z := dg dg_init (canon o).
+(* chained over a batch: each outcome is followed by one FF byte *)
+Definition dg_chain (l : list outcome) : Z := fold_left (fun h o => dg_step (dg h (canon o)) xff) l dg_init.
+
+Fixpoint count_diff (a b : list outcome) : nat :=
+  match a, b with
+  | x :: a', y :: b' => (if bytes_eqb (canon x) (canon y) then 0 else 1) + count_diff a' b'
+  | _, _ => 0
+  end.
+
+(* "<number of probes>,<digest of all M outcomes>,<digest of all S outcomes>,<number of probes with M <> S>" *)
+Definition run_digest_w (w : string) : string :=
+  let ms := batch_outcomes true w in
+  let ss := batch_outcomes false w in
+  show_nat (List.length ms) ++ "," ++ show_Z (dg_chain ms) ++ "," ++ show_Z (dg_chain ss) ++ ","
+  ++ show_nat (count_diff ms ss).
+
+(* per probe: "<digest M>" or "<digest M>!<digest S>" when they differ *)
+Definition run_detail_w (w : string) : string :=
+  let ms := batch_outcomes true w in
+  let ss := batch_outcomes false w in
+  show_sep "|" (fun p => let '(m, s) := p in
+                         let dm := dg_outcome m in let ds := dg_outcome s in
+                         if Z.eqb dm ds then show_Z dm else show_Z dm ++ "!" ++ show_Z ds)
+           (combine ms ss).
 
 (* UTF-8 validity of printed byte strings: groups of bytes -> "T"/"F" per group *)
 Definition run_valid_w (w : string) : string :=
